@@ -364,6 +364,115 @@ func c13(c *Ctx) {
 	}
 	r.Stat("error_call_sites", n)
 
+	// ---- R7 every validation test has a consequence: a comparison whose result is used by nothing (the body of
+	// `if name == "" { panic(…) }` was lost: go/ssa then drops the branch and leaves the comparison behind)
+	nFn := 0
+	for _, f := range p.Funcs {
+		if !inPk(relPkg(f)) || !strings.HasPrefix(pkgPathOf(f), Mod) || f.Blocks == nil || f.Synthetic != "" {
+			continue
+		}
+		nFn++
+		eachInstr(f, func(i ssa.Instruction) {
+			bo, ok := i.(*ssa.BinOp)
+			if !ok || !isBool(bo.Type()) {
+				return
+			}
+			switch bo.Op {
+			case token.EQL, token.NEQ, token.LSS, token.LEQ, token.GTR, token.GEQ:
+			default:
+				return
+			}
+			used := false
+			for _, ref := range *bo.Referrers() {
+				if _, dbg := ref.(*ssa.DebugRef); !dbg {
+					used = true
+				}
+			}
+			if !used && bo.Pos().IsValid() {
+				r.Bad("C13.R7", "test without consequence in "+shortName(f), p.Pos(posOf(bo)), "a condition is evaluated and nothing depends on it (an `if` with an empty body): the mistake it tests for is no longer rejected")
+			}
+		})
+	}
+	r.OK("C13.R7", "validation tests have consequences", "", fmt.Sprintf("%d functions: no comparison is left without a use", nFn))
+
+	// ---- R8 an error value is reported where it can be an error: on the side of an `err == nil` / `err != nil` test where
+	// the error is known to be nil, it is not handed to a call, asked for its message or panicked with (a test whose
+	// sense was inverted reports success as failure and lets the failure through)
+	nTests := 0
+	errT := types.Universe.Lookup("error").Type()
+	for _, f := range p.Funcs {
+		if !inPk(relPkg(f)) || !strings.HasPrefix(pkgPathOf(f), Mod) || f.Blocks == nil {
+			continue
+		}
+		nInF := 0
+		eachInstr(f, func(i ssa.Instruction) {
+			iff, ok := i.(*ssa.If)
+			if !ok {
+				return
+			}
+			bo, ok := iff.Cond.(*ssa.BinOp)
+			if !ok || (bo.Op != token.EQL && bo.Op != token.NEQ) {
+				return
+			}
+			var e ssa.Value
+			if isNilConst(bo.Y) {
+				e = bo.X
+			} else if isNilConst(bo.X) {
+				e = bo.Y
+			}
+			if e == nil || !types.Identical(e.Type(), errT) {
+				return
+			}
+			// the tested value comes from a call (not a parameter or a field: those may legitimately be re-reported)
+			fromCall := false
+			for _, a := range origins(e) {
+				if a.Kind == "call" {
+					fromCall = true
+				}
+			}
+			if !fromCall {
+				return
+			}
+			nTests++
+			nInF++
+			nilSucc := iff.Block().Succs[0]
+			if bo.Op == token.NEQ {
+				nilSucc = iff.Block().Succs[1]
+			}
+			if len(nilSucc.Preds) != 1 {
+				return // the nil side is the join: nothing is specific to it
+			}
+			isE := func(v ssa.Value) bool { return v == e }
+			bad := ""
+			for _, b := range f.Blocks {
+				if b != nilSucc && !nilSucc.Dominates(b) {
+					continue
+				}
+				for _, ins := range b.Instrs {
+					switch x := ins.(type) {
+					case *ssa.Panic:
+						if dependsOn(x.X, isE) || varargsDependOn(x.X, isE) {
+							bad = "panics with it at " + p.Pos(posOf(ins))
+						}
+					case ssa.CallInstruction:
+						c := x.Common()
+						if c.IsInvoke() && c.Value == e {
+							bad = "asks it for " + c.Method.Name() + "() at " + p.Pos(posOf(ins))
+						}
+						for _, a := range c.Args {
+							if a == e || varargsDependOn(a, isE) {
+								bad = "hands it to " + calleeName(c) + " at " + p.Pos(posOf(ins))
+							}
+						}
+					}
+				}
+			}
+			r.Check(bad == "", "C13.R8", "error used only where it can be non-nil in "+shortName(f)+" #"+itoa2(nInF), p.Pos(posOf(iff)), "the nil side does not report the error",
+				"on the side of the test where the error is nil the code "+bad+": the sense of the test is inverted — success is reported as failure and a real failure passes unnoticed")
+		})
+	}
+	r.Stat("error_tests", nTests)
+
 	// ---- R3/R4 erro types
 	ep := p.Pkg("erro")
 	if ep == nil {
@@ -985,4 +1094,27 @@ func variadicArgValues(cl *ssa.Call) []ssa.Value {
 		}
 	}
 	return out
+}
+
+// varargsDependOn: v is (a slice of) a variadic argument array one of whose stored elements depends on a target value.
+func varargsDependOn(v ssa.Value, isT func(ssa.Value) bool) bool {
+	if sl, ok := v.(*ssa.Slice); ok {
+		if al, ok := sl.X.(*ssa.Alloc); ok {
+			for _, ref := range *al.Referrers() {
+				ia, ok := ref.(*ssa.IndexAddr)
+				if !ok {
+					continue
+				}
+				for _, r2 := range *ia.Referrers() {
+					if st, ok := r2.(*ssa.Store); ok && st.Addr == ssa.Value(ia) && dependsOn(st.Val, isT) {
+						return true
+					}
+				}
+			}
+		}
+	}
+	if mi, ok := v.(*ssa.MakeInterface); ok {
+		return dependsOn(mi.X, isT)
+	}
+	return false
 }
